@@ -7737,7 +7737,8 @@ class TreeSequence:
             if len(U) == 0:
                 raise ValueError("Elements of sample_sets cannot be empty.")
             for u in U:
-                if not self.node(u).is_sample():
+                # self.node() accepts Python-style negative indexes; node IDs do not
+                if u < 0 or not self.node(u).is_sample():
                     raise ValueError("Not all elements of sample_sets are samples.")
 
         W = np.array([[float(u in A) for A in sample_sets] for u in self.samples()])
